@@ -343,6 +343,15 @@ def op_script(op: dict) -> dict:
                     res["eager_after"] = np.asarray(f(x)).astype(np.int64).tolist()
                 except Exception as e:  # noqa: BLE001
                     res["eager_after"] = "ERR:" + type(e).__name__
+        if op.get("proto_overrides"):
+            # to_model_proto(**overrides) on a function created by the process-wide decorator object, then plain again
+            kw_before = dict(f.kwargs)
+            try:
+                res["override_digest"] = _sha(f.to_model_proto(**kw_decode(op["proto_overrides"])).SerializeToString())
+            except Exception as e:  # noqa: BLE001
+                res["override_digest"] = "ERR:" + type(e).__name__
+            res["plain_after_override_equal"] = f.to_model_proto().SerializeToString() == mp[0]
+            res["kwargs_unchanged"] = dict(f.kwargs) == kw_before
         if op.get("want_consts"):
             from onnx import numpy_helper
 
@@ -382,6 +391,97 @@ def op_script(op: dict) -> dict:
 
             walk(m.graph)
             res["ctrl_outputs"] = outs
+        return res
+    finally:
+        scriptgen.release(modname)
+
+
+KW_STR = {"producer_name": "p", "doc_string": "d", "producer_version": "v", "domain": "dom"}
+KW_INT = ("ir_version", "model_version", "opset_version")
+
+
+def kw_decode(over: dict) -> dict:
+    """ints of the generated case -> real keyword values"""
+    import onnxscript
+
+    out = {}
+    for k, v in over.items():
+        if k in KW_STR:
+            out[k] = f"{KW_STR[k]}{v}"
+        elif k == "io_types":
+            out[k] = {1: onnxscript.FLOAT, 7: onnxscript.INT64, 11: onnxscript.DOUBLE}[int(v)]
+        else:
+            out[k] = int(v)
+    return out
+
+
+def kw_encode_val(k: str, v):
+    if k in KW_STR and isinstance(v, str) and v.startswith(KW_STR[k]) and v[len(KW_STR[k]):].lstrip("-").isdigit():
+        return int(v[len(KW_STR[k]):])
+    if k == "io_types":
+        return int(getattr(v, "dtype", -1))
+    if isinstance(v, int):
+        return int(v)
+    return repr(v)
+
+
+def kw_observe(proto_bytes: bytes) -> dict:
+    """what the emitted ModelProto shows for each keyword (None = the library default shows)"""
+    S = shared()
+    m = S["onnx"].ModelProto()
+    m.ParseFromString(proto_bytes)
+    obs = {"ir_version": int(m.ir_version), "model_version": int(m.model_version)}
+    for k, pre in KW_STR.items():
+        v = getattr(m, k)
+        obs[k] = int(v[len(pre):]) if v.startswith(pre) and v[len(pre):].lstrip("-").isdigit() else (None if v == "" else v)
+    t = m.graph.input[0].type.tensor_type.elem_type if m.graph.input and m.graph.input[0].HasField("type") else 0
+    obs["io_types"] = int(t) or None
+    return obs
+
+
+def op_kwseq(op: dict) -> dict:
+    """Functions created by shared / separate `script(...)` decorator objects; a history of
+    to_model_proto(**overrides) calls on any of them; then the target call, a plain call and to_function_proto."""
+    from harness import scriptgen
+
+    hdr = ""
+    for j, base in enumerate(op["decos"]):
+        args = "".join(f", {k}={v!r}" for k, v in kw_decode(base).items() if k != "io_types")
+        hdr += f"KD{j} = script(default_opset=op{args})\n"
+    bodies = []
+    for i, dj in enumerate(op["fns"]):
+        bodies.append((f"kf{i}", f"@KD{dj}\ndef kf{i}(x):\n    return op.Abs(op.Neg(x))\n" if i % 2 == 0
+                       else f"@KD{dj}\ndef kf{i}(x, y: FLOAT[2]):\n    return op.Add(x, y)\n"))
+    fn, err, modname = scriptgen.compile_functions(bodies, header_extra=hdr)
+    try:
+        if err:
+            return {"k": "kwseq", "err": "compile:" + str(err)[:200], "digest": "ERR:compile"}
+        fns = [fn[f"kf{i}"] for i in range(len(op["fns"]))]
+        snap = lambda: [{k: kw_encode_val(k, v) for k, v in sorted(f.kwargs.items())} for f in fns]  # noqa: E731
+        attrs = lambda: [sorted(k for k in vars(f) if not k.startswith("__")) for f in fns]  # noqa: E731
+        kw0, at0 = snap(), attrs()
+        fp0 = [f.to_function_proto().SerializeToString() for f in fns]
+        call_errs = 0
+        for fi, over in op["calls"]:
+            try:
+                fns[fi].to_model_proto(**kw_decode(over))
+            except Exception:  # noqa: BLE001
+                call_errs += 1
+        ti, tover = op["target"]
+        p1 = fns[ti].to_model_proto(**kw_decode(tover)).SerializeToString()
+        p2 = fns[ti].to_model_proto().SerializeToString()
+        fp1 = [f.to_function_proto().SerializeToString() for f in fns]
+        kw1, at1 = snap(), attrs()
+        shared_ids = [[int(fns[a].kwargs is fns[b].kwargs) for b in range(len(fns))] for a in range(len(fns))]
+        res = {
+            "k": "kwseq", "err": None,
+            "digest": _sha(p1 + b"|" + p2 + b"|" + fp1[ti]),
+            "eff": kw_observe(p1), "plain": kw_observe(p2),
+            "kwargs_before": kw0, "kwargs_after": kw1,
+            "kwargs_unchanged": kw0 == kw1 and at0 == at1,
+            "function_protos_unchanged": fp0 == fp1,
+            "shared": shared_ids, "call_errs": call_errs,
+        }
         return res
     finally:
         scriptgen.release(modname)
@@ -555,6 +655,7 @@ OPS = {
     "badpattern": op_badpattern,
     "opset": op_opset,
     "conv_reuse": op_conv_reuse,
+    "kwseq": op_kwseq,
 }
 
 
